@@ -85,8 +85,14 @@ def stable(obj, m):
 
 
 def cpu():
+    """CPU seconds of this process (the JVMs are children: reported separately)"""
     t = os.times()
-    return t.user + t.system + t.children_user + t.children_system
+    return t.user + t.system
+
+
+def cpu_children():
+    t = os.times()
+    return t.children_user + t.children_system
 
 
 def hkey(hist):
@@ -791,21 +797,35 @@ def _check(rep, pid, tier):
         ("merge_map_into_own_list", "MC_SysOrderMaps.tla", dict(MergeMapInto='"own"'), dict(MAXL=2, MAXM=2, NPOOL=3, NPOOLM=3, NPOOL3=2), MAP_INVS,
          {"MergeLaws", "MergeComposesLaw"}),
     ]
+    if not thorough:
+        variants = [v for v in variants if v[0] in ("b2i_backward_same", "sparse_first_component", "merge_map_into_own_list")]
     pool = cf.ThreadPoolExecutor(max_workers=3)          # at most 3 TLC runs at a time, 4 workers each
     try:
-        f_maps = pool.submit(run_model, "MC_SysOrderMaps.tla", maps_cfg, sc.tlc("maps"))
         f_sm = pool.submit(run_model, "MC_SysOrder.tla", sm_cfg, sc.tlc("store"), 4, True, 6000)
-        f_var = [(v, pool.submit(run_model, v[1], cfg(v[3], v[4], sw=v[2]), sc.tlc("v_" + v[0]), 2, False)) for v in variants]
+        f_maps = pool.submit(run_model, "MC_SysOrderMaps.tla", maps_cfg, sc.tlc("maps"))
 
         import wannierberri  # noqa: F401  (while the JVMs start)
         lap("import")
         # ---------------- code -> spec: recorded calls of the real methods (generated while TLC runs)
         rc = Recorder(rep, g, rng)
-        nper = 90 if thorough else 24
+        nper = 90 if thorough else 22
         for kind in KINDS:
             for _ in range(nper if kind != "nocen" else max(8, nper // 4)):
                 getattr(rc, kind)()
         per_kind = {k: sum(1 for r in rc.recs if r["kind"] == k) for k in KINDS}
+        recs = rc.recs
+        corrupted = []
+        for kind in KINDS:
+            for i, r in enumerate(recs):
+                if r["kind"] == kind:
+                    c = corrupt(r)
+                    if c is not None:
+                        corrupted.append((i, c[0], c[1]))
+                        break
+        # records through TLC, with corrupted copies (binding self-test) in the same batch
+        f_rec = pool.submit(ftable.validate_records, "SysOrderRec.tla", cfg({}, ["Report"], spec="RecSpec"), recs + [c[1] for c in corrupted],
+                            sc.rec("rec"), 3000, 300 if thorough else 1000)
+        f_var = [(v, pool.submit(run_model, v[1], cfg(v[3], v[4], sw=v[2]), sc.tlc("v_" + v[0]), 2, False)) for v in variants]
         lap("records_real")
 
         # ---------------- spec -> code: function tables
@@ -884,21 +904,13 @@ def _check(rep, pid, tier):
                                      f"{st.get('violation')} {(st.get('error') or '')[:300]}")
             sens[v[0]] = dict(switch=v[2], violated=st["violation"][1])
         rep.part("sensitivity", **sens)
-        lap("sensitivity")
+        f_rec.result()
+        lap("wait_for_tlc")
     finally:
         pool.shutdown(wait=True, cancel_futures=True)
 
-    # ---------------- records through TLC, with corrupted copies (binding self-test) in the same batch
-    recs = rc.recs
-    corrupted = []
-    for kind in KINDS:
-        for i, r in enumerate(recs):
-            if r["kind"] == kind:
-                c = corrupt(r)
-                if c is not None:
-                    corrupted.append((i, c[0], c[1]))
-                    break
-    stv, bad = ftable.validate_records("SysOrderRec.tla", cfg({}, ["Report"], spec="RecSpec"), recs + [c[1] for c in corrupted], sc.rec("rec"), chunk=400 if thorough else 1000)
+    # ---------------- records: what TLC says
+    stv, bad = f_rec.result()
     bad_c = {j: bad.pop(len(recs) + j, []) for j in range(len(corrupted))}
     stv["distinct"] -= len(corrupted)
     stv["generated"] -= 2 * len(corrupted)
@@ -942,7 +954,7 @@ def _check(rep, pid, tier):
     if g.count:
         rep.part("violation_counts", **{k.replace(".", "_").replace(":", "_"): v for k, v in g.count.items()})
     lap("information")
-    rep.part("cpu_seconds", **timing, total=round(sum(timing.values()), 1))
+    rep.part("cpu_seconds", **timing, python_total=round(sum(timing.values()), 1), tlc_children=round(cpu_children(), 1))
     if not rep.violations:
         sc.cleanup()
     return rep.finish()
